@@ -314,14 +314,14 @@ func sgCheckNegotiationNeeded(r *sgRun, pi int) {
 // ---------------------------------------------------------------- generated descriptions
 
 type sgGenState struct {
-	sessID   string
-	lastVer  uint64
-	haveVer  bool
-	midIndex map[string]int
-	idxMid   map[int]string
-	seenMids map[string]bool
-	trMid    map[*RTPTransceiver]string
-	sawRemoteApp bool
+	sessID        string
+	lastVer       uint64
+	haveVer       bool
+	midIndex      map[string]int
+	idxMid        map[int]string
+	seenMids      map[string]bool
+	trMid         map[*RTPTransceiver]string
+	sawRemoteApp  bool
 	answerDropped bool
 	remotePTs     map[string]bool // kind|pt|codec seen in an earlier applied remote description
 	pendingPTs    []string
@@ -774,7 +774,7 @@ func sgCheckAnswer(r *sgRun, ps *sgPeerState, rec *sgRec, ans, off *vfSDP, who s
 		}
 		for _, pt := range a.Fmts {
 			if !listed[pt] {
-							// one recognisable cause: the payload type (with this codec) is offered in another
+				// one recognisable cause: the payload type (with this codec) is offered in another
 				// section of the same offer — pion keeps one negotiated codec list per kind
 				ptElsewhere := false
 				for j, os := range off.Sections {
